@@ -35,6 +35,8 @@ ALPHA = [("mov", ["0x8(%rax)", "%rcx"]), ("mov", ["0x10(%rbx)", "%rcx"]), ("xor"
 
 M_S = {"name": "@s", "pattern": "mov"}
 M_R = {"name": "@r", "pattern": "rax"}
+M_HX = {"name": "@hx", "pattern": "[\\da-f]+"}           # bodies written as regular expressions, as the shipped macro file does
+M_WREG = {"name": "@wreg", "pattern": "r\\w{1,2}"}
 M_P1 = {"name": "@p1", "args": ["a1"], "pattern": [{"$or": [{"xor": ["a1", "a1"]}, {"mov": ["a1", "rbx"]}]}]}
 M_P2 = {"name": "@p2", "args": ["a1", "a2"], "pattern": [{"mov": ["a1", "a2"]}]}
 M_P3 = {"name": "@p3", "args": ["i1", "i2"], "pattern": [{"$and": ["i1", "i2"]}]}
@@ -68,6 +70,9 @@ def uses(tier):
         ("@sl", "movl", [M_S], []),
         ("x@s", "xmov", [M_S], []),
         ({"push": ["@r"]}, {"push": ["rax"]}, [M_R], []),
+        ({"mov": ["0x@hx", "rcx"]}, {"mov": ["0x[\\da-f]+", "rcx"]}, [M_HX], []),
+        ({"mov": ["%@wreg", "%@wreg"]}, {"mov": ["%r\\w{1,2}", "%r\\w{1,2}"]}, [M_WREG], []),
+        ({"mov": ["@hx"]}, {"mov": ["[\\da-f]+"]}, [M_HX], []),
         ({"mov": ["%@r", "rbx"]}, {"mov": ["%rax", "rbx"]}, [M_R], []),
         ({"mov": ["@r", "@r"]}, {"mov": ["rax", "rax"]}, [M_R], []),
         ({"mov": [{"$deref": {"main_reg": "@r"}}]}, {"mov": [{"$deref": {"main_reg": "rax"}}]}, [M_R], []),
